@@ -259,6 +259,12 @@ def run_shard(pid, tier, seed, shard, nshards, out):
     mod = load_prop(pid)
     ctx = Ctx(pid, tier, seed, shard, nshards, tier_budget(mod, tier))
     err = None
+    lg = getattr(mod, 'LOGGER_ON_ODD_SHARDS', False)
+    if (lg is True and shard % 2 == 1) or (lg == 'quarter' and shard % 4 == 3):
+        # process-global logger state that an earlier step of a session may have left behind: odd shards run the whole
+        # workload with the emd logger set up (the 'emd' logger itself then works at DEBUG, console output to a null sink)
+        setup_emd_logger()
+        ctx.count('shards_with_logger_set_up')
     try:
         mod.run_shard(ctx)
     except WatchdogTimeout:
@@ -270,6 +276,24 @@ def run_shard(pid, tier, seed, shard, nshards, out):
     with open(out, 'w') as f:
         json.dump(d, f)
     return 0 if err is None else 3
+
+
+class _NullOut:
+    def write(self, s):
+        return len(s)
+
+    def flush(self):
+        pass
+
+
+def setup_emd_logger(level='CRITICAL'):
+    import emd
+    old = sys.stdout
+    sys.stdout = _NullOut()
+    try:
+        emd.logger.set_up(level=level)
+    finally:
+        sys.stdout = old
 
 
 def known_findings(pid):
